@@ -111,7 +111,8 @@ def handle_failure(prop, unit, ob, sidecars, timeout_ms):
         elif unit.kind == "function" and unit.explorer is not None:
             num = MODELS[unit.model_name]
             friendly = friendly_constraints(unit, ob, num)
-            model = get_model(ob, timeout_ms=timeout_ms, extra=friendly)
+            model = ob.model if getattr(ob, "model", None) is not None else \
+                get_model(ob, timeout_ms=timeout_ms, extra=friendly)
             if model is not None:
                 inputs = replay_mod.concretize(ob, unit.explorer, model, num)
                 payload["inputs"] = inputs
@@ -141,6 +142,9 @@ def run_fuzz_all(units, plan, tier, seed):
     todo = []
     for u in units:
         if u.kind != "function" or u.status in ("anchor", "out_of_reach", "crash"):
+            continue
+        cc = REG.contracts.get(u.name)
+        if cc is not None and not cc.native_search:
             continue
         if u.status == "proved":
             secs = 2 if tier == "quick" else 15
